@@ -298,6 +298,20 @@ func (t *Term) Row(y int) string {
 	return strings.TrimRight(sb.String(), " ")
 }
 
+// Resize changes the width without reflowing (rows are cut or padded, as xterm does).
+func (t *Term) Resize(w int) {
+	for y := range t.Grid {
+		row := make([]Cell, w)
+		copy(row, t.Grid[y])
+		t.Grid[y] = row
+	}
+	t.W = w
+	if t.X > w-1 {
+		t.X = w - 1
+	}
+	t.Wrap = false
+}
+
 // Screen renders all rows up to the last non-blank one.
 func (t *Term) Screen() []string {
 	rows := make([]string, 0, t.H)
